@@ -1,4 +1,39 @@
-import Heathcliff.Model.RNS
+import Heathcliff.Proofs.C10H
+
+/- Property theorems only (statements verbatim; proofs are the helper lemmas of Heathcliff/Proofs). -/
 namespace HC.C10
-theorem placeholder_isPow2 : isPow2 8 = true := by decide
+open HC
+variable {m : Modulus}
+
+theorem RNSBase.new_wf {ms : List Modulus} {b : RNSBase} (hm : ∀ m ∈ ms, m.WF) (hl : ms.length ≤ 64)
+    (h : RNSBase.new ms = .ok b) : b.WF ∧ b.base = ms.toArray := HC.RNSBase.new_wf hm hl h
+
+/-- CRT uniqueness below the product -/
+theorem crt_unique {b : RNSBase} (hb : b.WF) {x y : Nat} (hx : x < b.prod) (hy : y < b.prod)
+    (h : ∀ i, i < b.size → x % (b.q i).value = y % (b.q i).value) : x = y := HC.crt_unique hb hx hy h
+
+theorem compose_spec {b : RNSBase} (hb : b.WF) {rs : Array Nat} (hs : rs.size = b.size) (hr : ∀ i, i < b.size → rs.getD i 0 < (b.q i).value) :
+    ∃ x, b.compose rs = .ok x ∧ x < b.prod ∧ ∀ i, i < b.size → x % (b.q i).value = rs.getD i 0 % (b.q i).value := HC.compose_spec hb hs hr
+
+/-- decompose ∘ compose = id on canonical residue vectors, compose ∘ decompose = id below the product -/
+theorem compose_decompose {b : RNSBase} (hb : b.WF) {v : Nat} (hv : v < b.prod) :
+    ∃ rs, b.decompose v = .ok rs ∧ b.compose rs = .ok v := HC.compose_decompose hb hv
+
+theorem decompose_compose {b : RNSBase} (hb : b.WF) {rs : Array Nat} (hs : rs.size = b.size)
+    (hr : ∀ i, i < b.size → rs.getD i 0 < (b.q i).value) :
+    ∃ x, b.compose rs = .ok x ∧ b.decompose x = .ok rs := HC.decompose_compose hb hs hr
+
+/-- FAST BASE CONVERSION: output = (x + alpha·Q) mod p_j for ONE alpha < k common to all output moduli -/
+theorem fastConvert_spec {ib ob : RNSBase} {c : BaseConverter} (hi : ib.WF) (ho : ob.WF)
+    (hc : BaseConverter.new ib ob = .ok c) {xs : Array Nat} (hs : xs.size = ib.size) (hx : ∀ i, i < ib.size → xs.getD i 0 < 2^64)
+    {x : Nat} (hxl : x < ib.prod) (hxr : ∀ i, i < ib.size → x % (ib.q i).value = xs.getD i 0 % (ib.q i).value) :
+    ∃ out alpha, c.fastConvert xs = .ok out ∧ out.size = ob.size ∧ alpha < ib.size ∧
+      ∀ j, j < ob.size → out.getD j 0 = (x + alpha * ib.prod) % (ob.q j).value := HC.fastConvert_spec hi ho hc hs hx hxl hxr
+
+/-- decomposition below the base product (for a single-modulus base the code does not reduce at all, so the statement for
+    arbitrary v < 2^(64·size) is false: refuted as `decomposeSpecStatement_false` in Proofs/C10H.lean) -/
+theorem decompose_spec_of {b : RNSBase} (hb : b.WF) {v : Nat} (hv : v < 2^(64 * b.size)) (hd : 1 < b.size ∨ v < b.prod) :
+    ∃ rs, b.decompose v = .ok rs ∧ rs.size = b.size ∧ ∀ i, i < b.size → rs.getD i 0 = v % (b.q i).value :=
+  HC.decompose_spec_of hb hv hd
+
 end HC.C10
